@@ -354,6 +354,42 @@ def stepH (st : HState) : HOp → Option (HState × HRet)
   | .popAllN h k =>
     (HMem.popAllK (st.cmp h.val) h.val k st.m).map fun (m1, es) => ({ st with m := m1 }, .popped es)
 
+/-! ### the client holding `iter.Seq` values and struct copies
+
+`q := h.PopAll()` returns a closure that captures nothing but the receiver pointer, so a held Seq
+value IS the heap's identity (`seqs` = the client's slots, in creation order): ranging it — at any
+later time, any number of times — is `popAllN`/`popAll` on that heap in its CURRENT state.
+`c := *h` makes another heap object (another address, modelled as identity `h + 2`): every element
+of `h` is foreign to it, so `c.Remove(e)` / `c.Fix(e)` are the calls `copyRemove` / `copyFix`. -/
+
+structure HClient where
+  st   : HState
+  seqs : List (Fin 2)
+
+inductive COp where
+  | op (o : HOp)
+  | seq (h : Fin 2)
+  | range (slot k : Nat)
+  | rangeAll (slot : Nat)
+  | copyRemove (h : Fin 2) (e : Nat)
+  | copyFix (h : Fin 2) (e : Nat)
+
+def stepC (c : HClient) : COp → Option (HClient × HRet)
+  | .op o => (stepH c.st o).map fun (st1, r) => ({ c with st := st1 }, r)
+  | .seq h => some ({ c with seqs := c.seqs ++ [h] }, .unit)
+  | .range i k =>
+    match c.seqs[i]? with
+    | none => none
+    | some h => (stepH c.st (.popAllN h k)).map fun (st1, r) => ({ c with st := st1 }, r)
+  | .rangeAll i =>
+    match c.seqs[i]? with
+    | none => none
+    | some h => (stepH c.st (.popAll h)).map fun (st1, r) => ({ c with st := st1 }, r)
+  | .copyRemove h e =>
+    (c.st.m.remove (c.st.cmp h.val) (h.val + 2) e).map fun m1 => ({ c with st := { c.st with m := m1 } }, .unit)
+  | .copyFix h e =>
+    (c.st.m.fixElem (c.st.cmp h.val) (h.val + 2) e).map fun m1 => ({ c with st := { c.st with m := m1 } }, .unit)
+
 /-! ### generic `Interface[T]` functions on a recording container
 
 The container is a slice with `Less(i, j) = cmp(data[i], data[j])`, `Swap`, `Push` (append),
